@@ -6745,6 +6745,14 @@ impl<'a, 'graph> Builder<'a, 'graph> {
               }
             });
           if dep.is_dynamic && !self.in_dynamic_branch {
+            // another module may have queued this dynamic branch already,
+            // in which case the load won't mark it for this referrer
+            if matches!(specifier.scheme(), "jsr" | "npm")
+              && let Ok(load_specifier) =
+                self.parse_load_specifier_kind(specifier, Some(range))
+            {
+              self.maybe_mark_dep(&load_specifier, Some(range));
+            }
             let value = self
               .state
               .dynamic_branches
@@ -6790,6 +6798,12 @@ impl<'a, 'graph> Builder<'a, 'graph> {
               }
             });
           if dep.is_dynamic && !self.in_dynamic_branch {
+            if matches!(specifier.scheme(), "jsr" | "npm")
+              && let Ok(load_specifier) =
+                self.parse_load_specifier_kind(specifier, Some(range))
+            {
+              self.maybe_mark_dep(&load_specifier, Some(range));
+            }
             self.state.dynamic_branches.insert(
               specifier.clone(),
               PendingDynamicBranch {
